@@ -45,8 +45,8 @@ def gData2 : PyRt.GData := [(gH1, [(some gO10, [0, 1]), (some gO11, [2])]), (gH2
 /-- one original name per haplotype -/
 def gData1 : PyRt.GData := [(gH1, [(some gO10, [0, 1])]), (gH2, [(some gO11, [2])])]
 
-example : KeysNonEmpty gData2 ∧ KeysNonEmpty gData1 := by
-  constructor <;> (intro kv hkv e he; simp [gData2, gData1] at hkv; rcases hkv with rfl | rfl <;> simp at he <;> (try rcases he with rfl | rfl) <;> simp [gO10, gO11] <;> subst he <;> simp [gO10, gO11])
+example : KeysNonEmpty gData2 ∧ KeysNonEmpty gData1 := ⟨keysNonEmpty_of_B _ (by decide), keysNonEmpty_of_B _ (by decide)⟩
+example : ∀ kv ∈ gData2, (kv.2.length : Int) ≤ 1114047 := by decide
 
 /-! ### 1. `ChrGroup.__init__` -/
 
@@ -71,10 +71,10 @@ theorem chrgroup_init_is_source_nodup (haps : List (Str × Bool)) (h : (haps.map
   · have := absG_emptyVals (haps.map (·.1))
     rwa [List.map_map] at this
 
-example : Gen.Imp.ChrGroup___init__ [(gH1, true), (gH2, true)] = .ok [(gH1, []), (gH2, [])] := by decide
+example : Gen.Imp.ChrGroup___init__ [(gH1, true), (gH2, true)] = .ok [(gH1, []), (gH2, [])] := rfl
 /-- a repeated haplotype: the source has ONE key, `newGroup` would have two entries -/
 example : Gen.Imp.ChrGroup___init__ [(gH1, true), (gH2, true), (gH1, false)] = .ok [(gH1, []), (gH2, [])] ∧
-    newGroup [gH1, gH2, gH1] = [(gH1, []), (gH2, []), (gH1, [])] := by decide
+    newGroup [gH1, gH2, gH1] = [(gH1, []), (gH2, []), (gH1, [])] := ⟨rfl, rfl⟩
 
 /-- `haplotype_dict` = `dict.get`; under the abstraction the model's `dGet?` -/
 theorem haplotype_dict_is_source (hap : Str) (data : PyRt.GData) :
@@ -136,17 +136,14 @@ theorem add_scaffold_to_haplotype_unknown (heap_b : List Scaffold) (data : PyRt.
   exact ⟨by rw [add_scaffold_nf, gdataAppend_unknown _ _ _ _ hn], groupAdd_unknown _ _ _ _ hn⟩
 
 example : Gen.Imp.ChrGroup_add_scaffold_to_haplotype gHeap [(gH1, [(some gO10, [0])]), (gH2, [])] gH1 1 =
-    .ok [(gH1, [(some gO10, [0, 1])]), (gH2, [])] := by decide
+    .ok [(gH1, [(some gO10, [0, 1])]), (gH2, [])] := rfl
 example : Gen.Imp.ChrGroup_add_scaffold_to_haplotype gHeap [(gH1, [(some gO10, [0])]), (gH2, [])] gH2 2 =
-    .ok [(gH1, [(some gO10, [0])]), (gH2, [(some gO11, [2])])] := by decide
+    .ok [(gH1, [(some gO10, [0])]), (gH2, [(some gO11, [2])])] := rfl
 example : (PyRt.bsGet gHeap 1).originalName = some gO10 ∧ KeysSome [(gH1, [(some gO10, [0])]), (gH2, [])] ∧
-    dHas [(gH1, [(some gO10, [0])]), (gH2, ([] : PyRt.HapSet))] gH1 = true := by
-  refine ⟨by decide, ?_, by decide⟩
-  intro kv hkv e he
-  simp at hkv; rcases hkv with rfl | rfl <;> simp at he
-  subst he; exact ⟨_, rfl⟩
+    dHas [(gH1, [(some gO10, [0])]), (gH2, ([] : PyRt.HapSet))] gH1 = true :=
+  ⟨by decide, (keysNonEmpty_of_B _ (by decide)).keysSome, by decide⟩
 example : Gen.Imp.ChrGroup_add_scaffold_to_haplotype gHeap [(gH1, [(some gO10, [0])])] gH2 2 = .error .attribute ∧
-    groupAdd (absG [(gH1, [(some gO10, [0])])]) gH2 gO11 2 = [(gH1, [(gO10, [0])]), (gH2, [(gO11, [2])])] := by decide
+    groupAdd (absG [(gH1, [(some gO10, [0])])]) gH2 gO11 2 = [(gH1, [(gO10, [0])]), (gH2, [(gO11, [2])])] := ⟨rfl, rfl⟩
 
 /-! ### 4. `ChrGroup.length_of_first_haplotype` -/
 
